@@ -445,7 +445,7 @@ def check(prop, tier, seed, runs_override=None, workers=None, repo="/repo", time
             h = d["hash"]
             if flavour == cfg["parts"][0][0]:
                 hashes[r] = h
-            nt = d["counters"].get("evaluations", 0) > 0
+            nt = d["counters"].get("nontrivial", 1 if d["counters"].get("evaluations", 0) > 0 else 0) > 0
             if nt:
                 nontrivial_hashes.add(h)
             if d["sched"]["decisions"] > 0:
